@@ -69,6 +69,16 @@ def derive_seed(seed: int, *parts) -> int:
     return int.from_bytes(h, "big") % (2 ** 63)
 
 
+def judge_under_python_O(module_name, case, timeout=300):
+    """configuration: judge the case in a child interpreter started with -O (assert statements compiled away)"""
+    import subprocess
+    p = subprocess.run([sys.executable, "-O", os.path.join(VERIF, "tools", "opt_child.py"), module_name], input=json.dumps(case).encode(),
+                       stdout=subprocess.PIPE, stderr=subprocess.PIPE, env=dict(os.environ, VERIF_REPO=REPO, PYTHONHASHSEED="0"), timeout=timeout)
+    if p.returncode != 0:
+        raise RuntimeError(f"python -O child failed: {p.stderr.decode()[-500:]}")
+    return [Failure(c, s_ + "/python-O", d) for c, s_, d in json.loads(p.stdout)]
+
+
 def exc_signature(exc: BaseException) -> str:
     """(type, innermost icalendar frame) - root-cause key for escaped exceptions."""
     tb = traceback.extract_tb(exc.__traceback__)
